@@ -1,7 +1,8 @@
 ------------------------ MODULE Trace_QueryLifecycle ------------------------
 (* Trace validation of the real query life cycle (sync HTTP path) against
    QueryLifecycle.  The trace is the verifhook event log of a stress run:
-     q.enqueue q.dequeue q.run q.run.sent q.run.skip q.delete      (logged under arqMapLock / waitingQueriesLock)
+     q.enqueue q.dequeue q.run q.run.sent q.run.skip q.delete q.pull.cleared q.cancel.admitting
+                                                                    (logged under arqMapLock / waitingQueriesLock)
      q.cancel.miss q.cancel.mark q.cancel.sent q.timeout.fire q.timeout.sent
      h.recv h.done x.start x.done                                   (handler / executor goroutines)
    plus "reset" between runs and "quiesce" (tables measured after the run).
@@ -52,7 +53,9 @@ TPullGot ==       \* puller holds the dequeued query, no lock held
 
 TRun ==           \* RunQuery: write lock, insert, arm timer; READY and RUNNING follow before the lock is released
   /\ IsEvent("q.run")
-  /\ ppc = "lock" /\ pq = Qid /\ arq = "free" /\ Qid \notin cancelled
+  /\ ppc = "lock" /\ pq = Qid /\ arq = "free"
+  \* (no requirement on `cancelled`: a cancel that found the query with the puller is logged under the waiting-queue lock,
+  \*  its mark follows under another lock and may come after the puller's look at isCancelled)
   /\ running' = running \cup {Qid}
   /\ Cardinality(running') = Ev.kv.nrun
   /\ Ev.kv.max = MAXRUN
@@ -64,13 +67,18 @@ TRun ==           \* RunQuery: write lock, insert, arm timer; READY and RUNNING 
 TRunSent ==
   /\ IsEvent("q.run.sent")
   /\ ppc = "ready" /\ pq = Qid
-  /\ ppc' = "check" /\ arq' = "free"
+  /\ ppc' = "clear" /\ arq' = "free"
   /\ UNCHANGED <<running, waiting, cancelled, chan, wq, hpc, outcome, epc, upd, tpc, pq, cpc, ncancel>>
 
 TRunSkip ==
   /\ IsEvent("q.run.skip")
   /\ ppc = "lock" /\ pq = Qid /\ Qid \in cancelled
-  /\ ppc' = "check"
+  /\ ppc' = "clear"
+  /\ UNCHANGED <<running, waiting, cancelled, chan, arq, wq, hpc, outcome, epc, upd, tpc, pq, cpc, ncancel>>
+
+TPullCleared ==   \* clearAdmittingQuery under the waiting-queue lock
+  /\ IsEvent("q.pull.cleared")
+  /\ ppc = "clear" /\ ppc' = "check"
   /\ UNCHANGED <<running, waiting, cancelled, chan, arq, wq, hpc, outcome, epc, upd, tpc, pq, cpc, ncancel>>
 
 Matches(m, state) == IF m = "FINISH" THEN state \in {"COMPLETE", "ERROR"} ELSE m = state
@@ -134,6 +142,13 @@ TCancelUnqueued == \* cancel of a query that was still waiting (after the fix): 
   /\ Put(Qid, "CANCELLED")
   /\ UNCHANGED <<running, arq, wq, hpc, outcome, epc, upd, tpc, ppc, pq, cpc, ncancel>>
 
+TCancelAdmitting == \* cancel of the query the puller holds (logged under the waiting-queue lock; mark and CANCELLED follow)
+  /\ IsEvent("q.cancel.admitting")
+  /\ ppc \in {"lock", "ready", "clear"} /\ pq = Qid
+  /\ cancelled' = cancelled \cup {Qid}
+  /\ Put(Qid, "CANCELLED")
+  /\ UNCHANGED <<running, waiting, arq, wq, hpc, outcome, epc, upd, tpc, ppc, pq, cpc, ncancel>>
+
 TCancelCall ==    \* harness-side marker: a CancelQuery call is about to start / has returned
   /\ (IsEvent("t.cancel.call") \/ IsEvent("t.cancel.ret"))
   /\ UNCHANGED vars
@@ -172,7 +187,7 @@ TReset ==
   /\ cpc' = [q \in Q |-> [w \in Who |-> "none"]] /\ ncancel' = [q \in Q |-> 0]
 
 TNext == \/ TEnqueue \/ TDequeue \/ TPullGot \/ TRun \/ TRunSent \/ TRunSkip \/ TRecv \/ TDelete \/ THDone
-         \/ TXStart \/ TXDone \/ TCancelCall \/ TCancelMiss \/ TCancelMark \/ TCancelUnqueued \/ TCancelSent
+         \/ TXStart \/ TXDone \/ TCancelCall \/ TCancelMiss \/ TCancelMark \/ TCancelUnqueued \/ TCancelAdmitting \/ TCancelSent \/ TPullCleared
          \/ TTimeoutFire \/ TTimeoutSent \/ TQuiesce \/ TReset
 TSpec == TInit /\ [][TNext]_tvars
 
